@@ -95,6 +95,15 @@ def c17(run):
         "configuration has to refine the one cache-less Engine specification line by line (results and storage ids), which is what "
         "transparency means; with checking on, requests to a never-created location must answer not-found and store nothing")
 
+def c18(run):
+    return engine_prop(run, ["MC_parents.cfg"],
+        [dict(profile="service", n=n(run, 70, 900), extra=["-via", "http"])],
+        "seeded histories over two locations whose every request is rendered in one of seven ways (query string, form body, JSON "
+        "body, /api/json envelope, /api/yaml envelope, one-element batch, Service.ProcessRequest) under four URI prefixes, rotated "
+        "per request, with ids that need URL/JSON escaping; the decoded response of every request must be what Engine (the "
+        "specification of the direct API) allows, so all encodings agree with the direct call and with each other; ill-formed "
+        "requests (missing / ill-typed parameter, unknown URI, empty body) must answer with an error and change nothing")
+
 def c19(run):
     return engine_prop(run, ["MC_guards.cfg"],
         [dict(profile="guards", n=n(run, 60, 800))],
@@ -167,7 +176,7 @@ def c03(run):
                            "indexed and linear state, through Location.Query; TLC compares the returned bindings as a BAG with Query!Eval; "
                            "states/transitions: QueryMC (algebraic laws of Eval on all trees up to depth 1/2 x all fact subsets)")
 
-CHECKS = {"C17": c17, "C01": c01, "C03": c03, "C04": c04, "C05": c05, "C02": c02, "C07": c07, "C08": c08, "C09": c09, "C10": c10, "C19": c19, "C20": c20}
+CHECKS = {"C17": c17, "C18": c18, "C01": c01, "C03": c03, "C04": c04, "C05": c05, "C02": c02, "C07": c07, "C08": c08, "C09": c09, "C10": c10, "C19": c19, "C20": c20}
 
 def replay(run, path):
     rejected, out = run.validate("EngineTrace.tla", "EngineTrace.cfg", path, "replay")
